@@ -27,7 +27,7 @@ type c09Gen struct {
 	own int
 }
 
-var c09Scalars = []string{"i0", "i1", "i5", "s0", "sx", "su", "t", "f", "nothing"}
+var c09Scalars = []string{"i0", "i1", "i5", "s0", "sx", "su", "t", "f", "nothing", "half", "fzero", "nhalf"}
 
 func (g *c09Gen) scalar() ME {
 	switch drawInt(g.t, 0, 5, "sk") {
@@ -203,6 +203,7 @@ func c09Ctx(t *rapid.T) Val {
 		return v
 	}
 	return ctxVal(
+		"half", vF64(0.5), "fzero", vF64(0), "nhalf", vF64(-0.25),
 		"i0", vInt(0), "i1", vInt(1), "i5", vInt(5), "s0", vStr(""), "sx", vStr("x"), "su", vStr("héé→a"), "t", vBool(true), "f", vBool(false), "nothing", vNil(),
 		"l0", vInts(), "l1", pickInts("l1", 1), "l3", pickInts("l3", 3), "l6", pickInts("l6", drawInt(t, 4, 6, "n6")),
 		"sl", vStrs("b", "a", "b", "é"), "e0", vStrs(),
